@@ -8,6 +8,7 @@ pub mod inst;
 pub mod samples;
 pub mod c07;
 pub mod c08;
+pub mod c13;
 pub mod c16;
 pub mod c17;
 pub mod c19;
@@ -50,6 +51,9 @@ pub fn dispatch(op: &str, input: &Tree) -> Result<Tree, String> {
         return r;
     }
     if let Some(r) = c08::dispatch(op, input) {
+        return r;
+    }
+    if let Some(r) = c13::dispatch(op, input) {
         return r;
     }
     Err(format!("unknown op {op}"))
